@@ -100,7 +100,9 @@ def run(prop, tier):
     rep.assumptions = ["uuid4 values are distinct (modelled as a fresh counter; the renaming is checked injective on every trace)",
                        "calls of different contexts interleave at logging-call boundaries",
                        "programs never allocate in a finished action (documented misuse) and continue each task id at most once"]
-    size = SIZES[tier]
+    size = dict(SIZES[tier])
+    if tier == "quick" and plan.get("extra"):
+        size = dict(sim=80, rand=260)          # these properties also run a concurrency half
     try:
         # 1. TLC decides the invariants on the specification
         for cfg, thorough_over in plan["mc"]:
